@@ -143,6 +143,40 @@ func Guarded(in ssa.Instruction, atoms ...Atom) bool {
 	return !reachableWithout(fn, in.Block(), cut)
 }
 
+// GuardedAvoiding is Guarded restricted to the paths that do not enter any of the avoided blocks: every path
+// from the entry to the instruction that stays outside those blocks passes an edge on which an atom holds.
+// (With no such path at all the answer is true.)
+func GuardedAvoiding(in ssa.Instruction, avoid map[*ssa.BasicBlock]bool, atoms ...Atom) bool {
+	fn := in.Parent()
+	cut := labelEdges(fn, atoms)
+	if len(fn.Blocks) == 0 {
+		return true
+	}
+	if avoid[fn.Blocks[0]] {
+		return true
+	}
+	seen := make([]bool, len(fn.Blocks))
+	stack := []*ssa.BasicBlock{fn.Blocks[0]}
+	seen[0] = true
+	for len(stack) > 0 {
+		b := stack[len(stack)-1]
+		stack = stack[:len(stack)-1]
+		if b == in.Block() {
+			return false
+		}
+		for _, s := range b.Succs {
+			if cut[edge{b.Index, s.Index}] || avoid[s] {
+				continue
+			}
+			if !seen[s.Index] {
+				seen[s.Index] = true
+				stack = append(stack, s)
+			}
+		}
+	}
+	return true
+}
+
 // GuardedAfter is like Guarded but only paths that start at instruction
 // "from" (same function) are considered: every path from the block of from to
 // the block of in passes a labelled edge.
